@@ -98,7 +98,7 @@ pub(crate) use {evt, qry};
 
 fn expect_dec(out: &[u8], v: u16) -> bool {
     let mut b = [0u8; 40];
-    let n = spec_dec(v as i128, &mut b);
+    let n = spec_dec32(v as i32, &mut b);
     bytes_eq(out, &b[..n])
 }
 
